@@ -68,6 +68,25 @@ Definition resample {P : Type} (ps : list P) (lw : list T) (u1 : T)
    map (fun _ => log_uniform N) par,
    par).
 
+(* The same loop body with the particle spelled out as its three members, as Resampling.cpp:88-90 assigns them
+   (state(j), mean(j), covariance(j) each taken from idx_csw).  C07_Proofs.resample3_eq: it is `resample` on
+   particle records; this is the entry point the correspondence check runs for the plain variant. *)
+Record particle (A B C : Type) := mkParticle { p_state : A; p_mean : B; p_cov : C }.
+Arguments mkParticle {A B C}. Arguments p_state {A B C}. Arguments p_mean {A B C}. Arguments p_cov {A B C}.
+
+Definition copy_members {A B C} (ps : list (particle A B C)) (d : particle A B C) (idx : nat) : particle A B C :=
+  mkParticle (p_state (nth idx ps d))      (* res_particles.state(j) = cor_particles.state(idx_csw) *)
+             (p_mean (nth idx ps d))       (* res_particles.mean(j) = cor_particles.mean(idx_csw) *)
+             (p_cov (nth idx ps d)).       (* res_particles.covariance(j) = cor_particles.covariance(idx_csw) *)
+
+Definition resample3 {A B C} (ps : list (particle A B C)) (lw : list T) (u1 : T)
+  : list (particle A B C) * list T * list nat :=
+  let N := length lw in
+  let par := res_parents lw u1 in
+  (match ps with [] => [] | d :: _ => map (copy_members ps d) par end,
+   map (fun _ => log_uniform N) par,
+   par).
+
 (* ---------- Resampling::neff ---------- *)
 Definition neff (lw : list T) : T :=
   sdiv S (s1 S) (ssum S (map (fun x => let e := sexp S x in smul S e e) lw)).
@@ -135,4 +154,6 @@ Definition resample_prior {P : Type} (init : nat -> list P) (ratio : T)
 
 End C07.
 Arguments mkPset {_ P}. Arguments pcount {_ P}. Arguments pparts {_ P}. Arguments plw {_ P}.
-Arguments resample {_ P}. Arguments resample_prior {_ P}. Arguments pconcat {_ P}.
+Arguments resample {_ P}. Arguments resample3 {_ A B C}.
+Arguments mkParticle {A B C}. Arguments p_state {A B C}. Arguments p_mean {A B C}. Arguments p_cov {A B C}.
+Arguments copy_members {A B C}. Arguments resample_prior {_ P}. Arguments pconcat {_ P}.
